@@ -13,6 +13,7 @@ import (
 	"path/filepath"
 	"sort"
 	"strings"
+	"time"
 )
 
 // ---- deterministic PRNG (splitmix64); every random choice derives from the seed ----
@@ -93,7 +94,12 @@ func main() {
 	tier := flag.String("tier", "quick", "quick|thorough")
 	dir := flag.String("out", "", "output directory")
 	replay := flag.String("replay", "", "replay file (a cases file): run only these cases")
+	isWorker := flag.Bool("worker", false, "internal: run cases from stdin")
 	flag.Parse()
+	if *isWorker {
+		workerMain()
+		return
+	}
 	if *replay != "" {
 		doReplay(*replay)
 		return
@@ -117,6 +123,7 @@ func main() {
 	must(err)
 	o := &out{cases: bufio.NewWriterSize(cf, 1<<20), impl: bufio.NewWriterSize(imf, 1<<20), meta: bufio.NewWriterSize(mf, 1<<16), stats: map[string]int{}, prefix: *comp + "-"}
 	f(o, *seed, *tier)
+	stopWorker()
 	must(o.cases.Flush())
 	must(o.impl.Flush())
 	must(o.meta.Flush())
@@ -146,6 +153,7 @@ func doReplay(path string) {
 	defer fh.Close()
 	sc := bufio.NewScanner(fh)
 	sc.Buffer(make([]byte, 1<<20), 1<<30)
+	defer stopWorker()
 	for sc.Scan() {
 		line := strings.TrimSpace(sc.Text())
 		if line == "" || line[0] == '#' {
@@ -155,23 +163,9 @@ func doReplay(path string) {
 		if len(parts) < 2 {
 			continue
 		}
-		f := map[string]string{}
-		for _, kv := range parts[2:] {
-			if i := strings.IndexByte(kv, '='); i > 0 {
-				f[kv[:i]] = kv[i+1:]
-			}
-		}
-		done := false
-		for _, r := range replayers {
-			if obs, ok := r(parts[1], f); ok {
-				fmt.Printf("%s %s\n", parts[0], obs)
-				done = true
-				break
-			}
-		}
-		if !done {
-			fmt.Printf("%s REPLAY-UNSUPPORTED kind=%s\n", parts[0], parts[1])
-		}
+
+		obs := iso(parts[1], strings.Join(parts[2:], " "), 60*time.Second)
+		fmt.Printf("%s %s\n", parts[0], obs)
 	}
 }
 
